@@ -400,7 +400,7 @@ class Tracer:
 class Sim:
     """one opened dataset on one session, traced"""
 
-    def __init__(self, kind="plain", trace=True, output_grid=False):
+    def __init__(self, kind="plain", trace=True, output_grid=False, gzip=False):
         global TR
         from pydap.client import open_url
         from pydap.handlers.lib import BaseHandler
@@ -413,7 +413,8 @@ class Sim:
         self.output_grid = output_grid
         self.wire = []                 # URLs that reached the adapter
         self.app_hits = []
-        inner = ServerSideFunctions(BaseHandler(make_dataset()))
+        self.gzip = gzip               # the server compresses its answers (Content-Encoding: gzip)
+        inner = ServerSideFunctions(BaseHandler(make_dataset(), gzip=True) if gzip else BaseHandler(make_dataset()))
 
         def app(environ, start_response):
             self.app_hits.append(environ["PATH_INFO"] + "?" + environ["QUERY_STRING"])
@@ -751,7 +752,7 @@ class HistoryRun:
         for i, (kind, obj, rec) in enumerate(self.live):
             if not rec or i not in self.first:
                 continue
-            fresh = Sim(self.sim.kind, trace=False)
+            fresh = Sim(self.sim.kind, trace=False, gzip=getattr(self.sim, "gzip", False))
             o = fresh.ds["s"]
             try:
                 for st in rec:
